@@ -4,7 +4,8 @@ from framework.common import Job
 from framework.report import Report
 
 RULE = ("metamorphic monitor, no oracle: for a model M and a rewrite R in {aliases -> separate variables linked by "
-        "x'-x=o, permute constraints, permute variables and shared domains, post a constraint twice, add an always-true "
+        "x'-x=o, permute constraints, permute variables and shared domains, permute the arguments of order-insensitive "
+        "constraints, post a constraint twice, add an always-true "
         "constraint, translate all values (translation-invariant models)}, project(solutions(R(M))) == solutions(M) "
         "as multisets and equal optimum, on the real solver. Random models (both modes) and the shipped models at "
         "sizes beyond brute force (queens 8-11 alias vs de-aliased, magic sequence 8-30, Golomb 5-7 optimum, BIBD, "
@@ -23,6 +24,24 @@ def main(tier, seed):
                         {"seed": seed * 2003 + c, "count": 40 if q else 800, "max_points": 4000 if q else 20000,
                          "deadline_s": 70 if q else 900},
                         mode="jit" if c % 3 == 0 else "interp", timeout=300 if q else 1800, tag="meta:%d" % c,
+                        stall_s=90))
+    # one shared domain seen through several views inside the same constraint (the written form decides which view is
+    # filtered first and which one the write-back intersects last)
+    from framework.props import modelfamily
+
+    for c in range(4 if q else 8):
+        jobs.append(Job("framework.props.metarun", "run_meta",
+                        {"seed": seed * 2011 + c, "count": 400 if q else 2500, "max_points": 4000,
+                         "deadline_s": 60 if q else 900, "no_translate": True,
+                         "gen": modelfamily.clean_gen({
+                             "types": ["affine_eq", "affine_eq", "affine_eq", "affine_leq", "affine_geq", "max_eq", "min_eq",
+                                       "element_liv", "element_lic", "count_eq", "exactly_eq", "lexicographic_leq",
+                                       "alldifferent", "relation", "max_leq", "min_geq"] if c % 4 < 2 else
+                             ["affine_eq", "affine_eq", "affine_leq", "affine_geq"],
+                             "widths": [2, 3, 4, 5, 6], "max_doms": 2, "min_alias": 2, "max_alias": 4,
+                             "max_props": 1 if c % 2 == 0 else 2, "circuit": 0.0, "big": False, "repeat_p": 1.0,
+                             "plant": 0.5})},
+                        mode="jit" if c % 2 else "interp", timeout=300 if q else 1800, tag="metaviews:%d" % c,
                         stall_s=90))
     n = 7
     for c in range(n):
@@ -52,7 +71,7 @@ def main(tier, seed):
             rep.count("jobs_truncated_by_deadline")
     rep.distinct = distinct
     for rw in ("dealias", "permute_constraints", "permute_variables", "duplicate_constraint", "add_true_constraint",
-               "translate"):
+               "translate", "permute_arguments"):
         rep.need("rewrite." + rw, 30, "rewrite " + rw)
     rep.need("shipped.solutions_compared", 2000, "shipped models")
     rep.need("optima_compared", 300, "optimum relation")
